@@ -1,7 +1,13 @@
 (* Properties/C01.v — Cesium reads return exactly the committed samples, in time order.
-   (statements only; under construction) *)
-From Coq Require Import ZArith List.
-From Synnax Require Import Generated.Consts_C01 Cesium.Store Cesium.UnaryWrite Cesium.Read.
+   Only statements, each closed by [exact] (short glue allowed), each followed by
+   Print Assumptions. *)
+From Coq Require Import ZArith List Bool Lia.
+From Synnax Require Import Generated.Consts_C01 Cesium.Store Cesium.IndexSearch Cesium.Distance Cesium.Stamp
+     Cesium.UnaryIter Cesium.UnaryWrite Cesium.Read Monitors.Mon_C01
+     Cesium.IndexSearchProofs Cesium.DomIterProofs Cesium.DistanceProofs Cesium.UnaryIterViews
+     Cesium.UnaryIterExact Cesium.SliceProofs Cesium.UnaryIterSpec Cesium.TruthProofs Cesium.ReadProofs
+     Cesium.UnaryWriteProofs Cesium.LayoutCheck Cesium.LegacyWitness.
+Import ListNotations.
 Local Open Scope Z_scope.
 
 (* the rounding formulas of the model are the factors the Go source carries *)
@@ -19,3 +25,103 @@ Proof.
     rewrite Z.div_mul_cancel_l by discriminate. reflexivity.
 Qed.
 Print Assumptions C01_consts_agree.
+
+(* search_spec *)
+Theorem C01_search_spec : forall l ts, inc l -> isearch ts l = Ok (search_result ts l).
+Proof. exact isearch_spec. Qed.
+Print Assumptions C01_search_spec.
+
+(* distance_count: what pickSampleOffset relies on *)
+Theorem C01_distance_count : forall P k q a t,
+  lay P -> znth P k = Some q -> inc (d_data q) ->
+  t_s (d_tr q) <= a < t_e (d_tr q) -> a <= t <= t_e (d_tr q) ->
+  exists da, distance P (TR a t) true = Ok da /\
+             pick_sample_offset da = cnt_lt t (d_data q) - cnt_lt a (d_data q).
+Proof. intros P k q a t HP Hq Hi Ha Ht. exact (distance_one_domain P k q HP Hq Hi a t Ha Ht). Qed.
+Print Assumptions C01_distance_count.
+
+(* slice_exact: sliceDomain on a data domain d (inside one index domain q, one sample per index
+   stamp of its range) with a view v returns the series whose range is d ∩ v and whose samples
+   are exactly those between the index offsets of the two ends of d ∩ v *)
+Theorem C01_slice_exact : forall P var k q d v,
+  lay P -> znth P k = Some q -> inc (d_data q) ->
+  t_s (d_tr d) < t_e (d_tr d) ->
+  t_s (d_tr q) <= t_s (d_tr d) /\ t_e (d_tr d) <= t_e (d_tr q) ->
+  dlen d = zlen (stamps_in (d_tr d) (d_data q)) ->
+  t_s v < t_e v -> overlaps (d_tr d) v = true ->
+  dser P var d v =
+  Ok (Ser (TR (Z.max (t_s (d_tr d)) (t_s v)) (Z.min (t_e (d_tr d)) (t_e v)))
+          (firstn (Z.to_nat (offB q d v - offA q d v)) (skipn (Z.to_nat (offA q d v)) (d_data d)))).
+Proof. intros P var k q d v HP Hq Hi Hd Hin Hal Hv Hov. exact (dser_exact P var k q d HP Hq Hi Hd Hin Hal v Hv Hov). Qed.
+Print Assumptions C01_slice_exact.
+
+(* Read exactness.  For every stored layout satisfying [layout_ok] (see C10) and every
+   half-open read range with 0 <= start <= end <= MAX — range ends between samples, on domain
+   boundaries, outside the stored data all included — DB.Read of a channel (SeekFirst;
+   Next(TimeSpanMax) ... over its unary iterator) returns, concatenated over its series,
+   exactly the stored samples whose index stamps lie in the range, each once, in ascending
+   time order.
+   _partial: (1) layouts in which a data domain spans several contiguous index domains are
+   outside [layout_ok]; (2) that the layout a history of writes and commits produces is
+   [layout_ok] with [layout_assoc = committed h] is not proved here: it is checked on every
+   run by the correspondence (model layout vs. implementation reads) together with the
+   monitor (implementation reads vs. [committed h]). *)
+Theorem C01_read_exact_partial : forall P D var t,
+  layout_ok P D -> valid_bounds t -> 0 <= t_s t ->
+  UnaryIterSpec.frame_data (read_one P D var t) = read_spec (layout_assoc P D) t.
+Proof. intros P D var t HL Hb H0. exact (read_one_exact P D var HL t Hb H0). Qed.
+Print Assumptions C01_read_exact_partial.
+
+(* ... and [read_one] is what the model's DB.Read does on a database state *)
+Theorem C01_read_is_read_one : forall d k t,
+  read_chan d k t = let '(P, D, var) := chan_layout d k in read_one P D var t.
+Proof. intros. unfold read_chan, read_one. destruct (chan_layout d k) as [[P D] var]. reflexivity. Qed.
+Print Assumptions C01_read_is_read_one.
+
+(* the stored content ascends in time *)
+Theorem C01_stored_ascending : forall P D, ilay P -> lay D -> asc (layout_assoc P D).
+Proof. exact layout_assoc_asc. Qed.
+Print Assumptions C01_stored_ascending.
+
+(* Nothing that was never committed: a Write of a writer without auto-commit changes no
+   channel's committed domains, so every read answers as before; Close and Reopen likewise
+   (the same answer after the database is closed and reopened). For all states and frames. *)
+Theorem C01_uncommitted_invisible : forall st o k t,
+  match o with
+  | WWrite _ => match s_w st with Some w => w_auto w = false | None => True end
+  | WClose | WReopen => True
+  | _ => False
+  end ->
+  read_chan (s_db (fst (w_step st o))) k t = read_chan (s_db st) k t.
+Proof. exact uncommitted_invisible_read. Qed.
+Print Assumptions C01_uncommitted_invisible.
+
+(* Finding F25 (repaired in /repo by 5e59704): the Distance loop of the pinned upstream tree
+   reported a continuous range ending exactly at the end of the second index domain as
+   discontinuous, so a read ending on an index file-rollover boundary returned nothing for a
+   channel whose own file had not rolled over. *)
+Theorem C01_legacy_distance_refuted :
+  distance_legacy w_idx3 (TR 0 91) true = Err EDisc /\
+  distance w_idx3 (TR 0 91) true = Ok (DA 9 10 true false).
+Proof. exact legacy_distance_refuted. Qed.
+Print Assumptions C01_legacy_distance_refuted.
+
+(* Non-vacuity: a history with two writer sessions (the second before the first in time, the
+   first started 2 ns before its first sample), an int64 and a string data channel; the model
+   state it produces satisfies the layout hypothesis, its content is the committed
+   specification, and a read whose range ends between samples returns the expected values. *)
+Definition ex_chans : list (Z * Z * Z) := [(1, 0, 0); (2, 1, 0); (3, 1, 3)].
+Definition ex_hist : list wop :=
+  [WOpen [1; 2; 3] 100 false;
+   WWrite [(1, [102; 105; 110]); (2, [7; 8; 9]); (3, [20; 21; 22])]; WCommit;
+   WWrite [(1, [111]); (2, [10]); (3, [23])]; WClose;
+   WOpen [3; 1; 2] 10 true;
+   WWrite [(1, [10; 11]); (2, [5; 6]); (3, [18; 19])]; WClose; WReopen].
+Definition ex_state : state := fst (w_run (init_state 0 ex_chans) ex_hist).
+Example C01_nonvacuous :
+  (let '(P, D, var) := chan_layout (s_db ex_state) 3 in
+   layout_okb P D = true /\
+   layout_assoc P D = committed ex_chans ex_hist (map fst (snd (w_run (init_state 0 ex_chans) ex_hist))) 3 /\
+   UnaryIterSpec.frame_data (read_one P D var (TR 11 106)) = [19; 20; 21]) /\
+  valid_bounds (TR 11 106).
+Proof. split; [vm_compute; auto|unfold valid_bounds, MINI64, MAXTS; simpl; lia]. Qed.
